@@ -94,6 +94,13 @@ def concretise(hist, bind):
                 lg = e[2] if len(e) == 3 else False
                 keymap[apirec.krepr("pair", e[0], e[1], lg)] = (e[0], e[1], lg)
             ops.append(["bulk", [[E(x) for x in e] for e in ents], m, bool(v), bool(sv)])
+        elif kind == "bulklong":
+            # the same two pairs at 1,200 positions of one bulk list (a list long enough for any "large batch" path)
+            (t1, b1, l1), (t2, b2, l2) = bind[0], bind[1]
+            ents = [((t1, b1, l1) if j % 3 else (t2, b2, l2)) for j in range(1200)]
+            keymap[apirec.krepr("pair", t1, b1, l1)] = (t1, b1, l1)
+            keymap[apirec.krepr("pair", t2, b2, l2)] = (t2, b2, l2)
+            ops.append(["bulk", [[E(x) for x in e] for e in ents], op[1], bool(op[2]), False])
         elif kind == "cli":
             k = op[1] if len(op) > 1 else 1
             ops.append(["cli", SHEET, [[], ["--default-bg", "#202020", "--premium"], ["--default-bg", "black", "--mode", "0"]][k - 1]])
@@ -204,6 +211,11 @@ def main():
     chosen = rnd.sample(hists, min(nh, len(hists)))
     for k, h in enumerate(chosen):
         jobs.append((h, binds[k % len(binds)]))
+    # hand-written histories with a very long bulk list between single calls (cheap bindings only)
+    for k in range(3 if t == "quick" else 12):
+        bnd = [(("#777777", "#ffffff", False), ("#767676", "#ffffff", False)), (((119, 119, 119), "#ffffff", True), ("#888888", "#000000", False)),
+               (("rgb(119, 119, 119)", "white", False), ("#000000", "#ffffff", True))][k % 3]
+        jobs.append(((("new", 1), ("fix", 1, k % 3, False, 0), ("bulklong", k % 3, False), ("fix", 2, k % 3, False, 0), ("bulklong", k % 3, False)), bnd))
     results = vlib.pool_map(_exec, jobs, chunksize=6)
     # thread workloads (in this process)
     thread_runs = []
